@@ -12,7 +12,7 @@ from .. import core, gen, ohist, specs
 from .. import tdfref as R
 
 PROP = "C15"
-RULE = ("states = (origin new|ctor|decoded, ordered list of (channel, item)) reached by BFS to depth 4 (quick) / 6 (thorough) per class; "
+RULE = ("states = (origin new|ctor|decoded, ordered list of (channel, item)) reached by BFS to depth 5 (quick) / 6 (thorough) per class; "
         "items from a pool of 4, <=3 per block, explicit channels {0,1,5}; every op applied in every state; oracle: "
         "public (channel,item) view == model == pairs in the encoding (reference decoder), nBytes == written; "
         "non-trivial = >= 2 items or a decoded origin")
@@ -377,7 +377,7 @@ TYPES = (R.T_EMG, R.T_PLATCAL, R.T_PLATDATA)
 
 def _shard(t):
     acc = core.Acc()
-    depth = {"quick": 4, "thorough": 6}[_shard.tier]
+    depth = {"quick": 5, "thorough": 6}[_shard.tier]
     ohist.explore(ChanMachine(t), acc, depth=depth, tag=f"{R.NAMES[t]}:", wit_extra={"type": t})
     return acc
 
